@@ -89,6 +89,30 @@ def execute(case):
         if mode in ("volume", "delayvolume"):
             # volume objects draw their division time / volume at initialisation: trace that too
             pass
+    pre = case.get("prelude")
+    if pre:
+        # an earlier, unrelated simulation of the same Model object (and of the same interface when there is one): whatever
+        # it did must leave no trace in the traced run that follows
+        import warnings as _w
+        pg = grid[: max(3, min(len(grid), 6))]
+        with _w.catch_warnings():
+            _w.simplefilter("ignore")
+            try:
+                R_.py_seed_random(seeds.derive(case["bseed"], "prelude") | 1)
+                kwp = {"ssa": dict(stochastic=True), "safe": dict(stochastic=True),
+                       "volume": dict(stochastic=True, volume=1.37), "delay": dict(stochastic=True, delay=True),
+                       "delayvolume": dict(stochastic=True, delay=True, volume=0.8), "det": dict(stochastic=False)}[pre]
+                if pre != "det":
+                    # the prelude stays in the domain the case itself is in: safe mode whenever the case needs it
+                    kwp["safe"] = bool(case.get("safe")) or pre == "safe"
+                if iface is not None and pre in ("ssa", "volume", "delay", "delayvolume"):
+                    py_simulate_model(pg, Interface=iface, return_dataframe=False, **kwp)
+                    iface.py_set_dt(case.get("iface_dt", dt))
+                else:
+                    py_simulate_model(pg, Model=M, return_dataframe=False, **kwp)
+            except (TypeError, RuntimeError):
+                pass
+        R_.py_seed_random(case["bseed"])
     ks = case.get("script") or []
     R_.py_verif_script(script_values(ks))
     R_.py_verif_trace_start(TRACE_CAP, 1)
